@@ -11,7 +11,7 @@ use crate::prng::Rng;
 use crate::proc::{HResult, HostStats, Proc};
 use crate::scenario::{apply, fnv64, Obs, Op, Scenario, World};
 
-pub const KINDS: [&str; 13] = [
+pub const KINDS: [&str; 14] = [
     "entropy_reseed",
     "worker_restart",
     "process_restart",
@@ -25,6 +25,7 @@ pub const KINDS: [&str; 13] = [
     "env_noise",
     "address_slide",
     "fs_wipe",
+    "reformat",
 ];
 
 /// the pinned tree panics on this one (C17's business); here it is history for other expansions
@@ -47,6 +48,7 @@ pub struct Cfg {
     pub env_noise: bool,
     pub address_slide: bool,
     pub fs_wipe: bool,
+    pub reformat: bool,
     pub history_burst: bool,
     pub corpus_pct: u64,
 }
@@ -106,6 +108,29 @@ fn env_noise(rng: &mut Rng) -> Vec<(String, String)> {
 
 fn swarm(rng: &mut Rng, thorough: bool) -> Cfg {
     let on = |rng: &mut Rng| rng.chance(7, 10);
+    // "proc-macro server" runs: one long-lived process and worker, many distinct inputs, a long
+    // history — state that only builds up over dozens of expansions (bounded caches, interners)
+    if rng.chance(2, 25) {
+        return Cfg {
+            n_targets: rng.range(2, 6) as usize,
+            n_polluters: rng.range(15, 40) as usize,
+            n_procs: 1,
+            workers_per_proc: rng.range(1, 2) as usize,
+            steps: if thorough { rng.range(100, 400) } else { rng.range(80, 200) } as usize,
+            entropy_mode: if rng.chance(1, 2) { 1 } else { 0 },
+            worker_restart: false,
+            process_restart: false,
+            heap_fragment: on(rng),
+            clock_jump: on(rng),
+            pid_change: on(rng),
+            env_noise: on(rng),
+            address_slide: on(rng),
+            fs_wipe: false,
+            reformat: on(rng),
+            history_burst: true,
+            corpus_pct: *rng.pick(&[0, 30, 60]),
+        };
+    }
     Cfg {
         n_targets: rng.range(1, 6) as usize,
         n_polluters: rng.below(5) as usize,
@@ -125,6 +150,7 @@ fn swarm(rng: &mut Rng, thorough: bool) -> Cfg {
         env_noise: on(rng),
         address_slide: on(rng),
         fs_wipe: on(rng),
+        reformat: on(rng),
         history_burst: on(rng),
         corpus_pct: *rng.pick(&[0, 30, 60, 60, 90, 100]),
     }
@@ -199,7 +225,7 @@ pub fn plan(seed: u64, corpus: &[Input], thorough: bool) -> Plan {
         let mut ops = vec![];
         for t in 0..n_targets {
             ops.push(Op::Spawn { w: t as u64, entropy: 0 });
-            ops.push(Op::Expand { w: t as u64, input: t });
+            ops.push(Op::Expand { w: t as u64, input: t, fmt: 0 });
             ops.push(Op::Kill { w: t as u64 });
         }
         order.extend(std::iter::repeat(0).take(ops.len()));
@@ -329,7 +355,8 @@ pub fn plan(seed: u64, corpus: &[Input], thorough: bool) -> Plan {
                 } else {
                     rng.usize(inputs.len())
                 };
-                worlds[wi].ops.push(Op::Expand { w: wid, input: i });
+                let fmt = if cfg.reformat && rng.chance(1, 4) { 1 + rng.below(u64::MAX - 1) } else { 0 };
+                worlds[wi].ops.push(Op::Expand { w: wid, input: i, fmt });
                 order.push(wi);
             }
             bump("history_burst");
@@ -346,7 +373,11 @@ pub fn plan(seed: u64, corpus: &[Input], thorough: bool) -> Plan {
         } else {
             rng.usize(n_targets)
         };
-        worlds[wi].ops.push(Op::Expand { w: wid, input: i });
+        let fmt = if cfg.reformat && rng.chance(1, 4) { 1 + rng.below(u64::MAX - 1) } else { 0 };
+        if fmt != 0 {
+            bump("reformat");
+        }
+        worlds[wi].ops.push(Op::Expand { w: wid, input: i, fmt });
         order.push(wi);
     }
 
@@ -448,7 +479,7 @@ pub fn execute_plan(plan: &Plan) -> HResult<RunResult> {
                 res.canaries.insert(canary);
                 hist.insert((wi, *w), 0);
             },
-            Op::Expand { w, input } => {
+            Op::Expand { w, input, .. } => {
                 let (fp, out) = apply(p, &sc.inputs, op)?.unwrap();
                 let text = sc.inputs[*input].as_str();
                 let h = hist.entry((wi, *w)).or_insert(0);
